@@ -25,7 +25,8 @@ def Verdict.render (stream id : String) (v : Verdict) : String :=
   let o := match v.oracle with | none => "na" | some true => "pass" | some false => "FAIL"
   let cls := if v.cls.isEmpty then "" else s!" class={v.cls}"
   let tags := if v.tags.isEmpty then "" else s!" tags={",".intercalate v.tags}"
-  let d := if v.detail.isEmpty then "" else s!" detail={v.detail}"
+  -- one verdict = one line: pretty-printed values inside a detail may contain line breaks
+  let d := if v.detail.isEmpty then "" else s!" detail={(v.detail.replace "\n" " ").replace "\r" " "}"
   s!"{stream} {id} corr={c} oracle={o} nt={if v.nontrivial then 1 else 0}{cls}{tags}{d}"
 
 def badInput (msg : String) : Verdict :=
